@@ -268,6 +268,18 @@ pub(super) fn gather_nesting_level(trimmed: &str) -> usize {
     level
 }
 
+/// A label `(name)` on a choice or gather names a container of the story: it must be a name
+/// (letters, digits, underscore), in particular not empty.
+pub fn check_label_name(name: &str) -> Result<(), CompilerError> {
+    if !name.is_empty() && name.chars().all(|c| c.is_alphanumeric() || c == '_') {
+        Ok(())
+    } else {
+        Err(CompilerError::invalid_source(format!(
+            "'({name})' is not a valid label: a label is a name made of letters, digits and '_'"
+        )))
+    }
+}
+
 pub fn parse_choice_prefixes(
     input: &str,
 ) -> Result<(Option<String>, Vec<Condition>, &str), CompilerError> {
@@ -279,7 +291,9 @@ pub fn parse_choice_prefixes(
         let end = after_open.find(')').ok_or_else(|| {
             CompilerError::invalid_source("choice label is missing ')'".to_owned())
         })?;
-        label = Some(after_open[..end].trim().to_owned());
+        let name = after_open[..end].trim();
+        check_label_name(name)?;
+        label = Some(name.to_owned());
         remainder = after_open[end + 1..].trim_start();
     }
 
